@@ -1,6 +1,8 @@
 import DFV.Lemmas.C13Reject
 import DFV.Lemmas.C13StoreSim
 import DFV.Model.C13
+import DFV.Lemmas.C06Rot
+import DFV.Lemmas.C06Mesh
 /-!
 # C13 — geometric invariants and in-place == copy after any transformation sequence
 
@@ -567,6 +569,52 @@ theorem unturned_history_keeps_n (m : Mesh) (hm : m.Inv) (ops : List Op)
       obtain ⟨_, hri, hn, _⟩ := stepM_region_n m hm op recv ret hstep
       have : opN m op = m.n := by cases op <;> simp_all [opN, Op.noTurn]
       exact (ih ret hri hall').trans (hn.trans this)
+
+/-- one accepted mesh step keeps the total number of cells -/
+theorem stepM_keeps_len (m : Mesh) (hm : m.Inv) (op : Op) (recv ret : Mesh) (h : stepM m op = .ok (recv, ret)) :
+    ret.len = m.len := by
+  obtain ⟨_, _, hn, _⟩ := stepM_region_n m hm op recv ret h
+  unfold Mesh.len; rw [hn]
+  cases op with
+  | translate v b => rfl
+  | scale f ref b => rfl
+  | rotate90 a1 a2 k ref b =>
+    have hnm : ¬ Malformed m.region (.rotate90 a1 a2 k ref b) := by
+      intro hmal; obtain ⟨e, he⟩ := stepM_malformed m _ hmal; rw [he] at h; cases h
+    simp only [Malformed, not_or, not_exists] at hnm
+    obtain ⟨hne, _, h1, h2⟩ := hnm
+    simp only [opN]
+    cases hd1 : m.region.dim2index a1 with
+    | error e => exact absurd hd1 (h1 e)
+    | ok i1 =>
+      cases hd2 : m.region.dim2index a2 with
+      | error e => exact absurd hd2 (h2 e)
+      | ok i2 =>
+        obtain ⟨hl1, hg1⟩ := C06.dim2index_ok m.region a1 i1 hd1
+        obtain ⟨hl2, hg2⟩ := C06.dim2index_ok m.region a2 i2 hd2
+        have hlen : m.n.length = m.region.dims.length := by rw [hm.2.1]; exact hm.1.2.2.1.symm
+        apply C06.natProd_rotN
+        · intro he; apply hne; rw [← hg1, ← hg2, he]
+        · rw [hlen]; exact hl1
+        · rw [hlen]; exact hl2
+        · intro k hk
+          obtain ⟨i, hi, rfl⟩ := List.getElem_of_mem hk
+          have := hm.2.2 i (by unfold Mesh.ndim Region.ndim; rw [← hm.1.2.2.1, ← hlen]; exact hi)
+          simpa [Mesh.nAt, List.getD_eq_getElem?_getD, hi] using this
+
+/-- **every history keeps the total number of cells**: translations, scalings and quarter turns, in
+place or copying, rejected steps skipped -/
+theorem history_keeps_len (m : Mesh) (hm : m.Inv) (ops : List Op) : (runM m ops).len = m.len := by
+  induction ops generalizing m with
+  | nil => rfl
+  | cons op ops ih =>
+    unfold runM
+    cases hstep : stepM m op with
+    | error e => exact ih m hm
+    | ok p =>
+      obtain ⟨recv, ret⟩ := p
+      have hri := (stepM_region_n m hm op recv ret hstep).2.1
+      exact (ih ret hri).trans (stepM_keeps_len m hm op recv ret hstep)
 
 /-- **"cell·n equals the region edges" after every history**: for every mesh reached by any
 finite history, on every axis the count is positive and `n · cell = pmax − pmin` exactly -/
